@@ -1597,6 +1597,9 @@ impl<'a> Socket<'a> {
     ) -> Option<(IpRepr, TcpRepr<'static>)> {
         debug_assert!(self.accepts(cx, ip_repr, repr));
 
+        // Whether the peer's FIN had been received before this segment.
+        let fin_received_before = self.rx_fin_received;
+
         // Consider how much the sequence number space differs from the transmit buffer space.
         let (sent_syn, sent_fin) = match self.state {
             // In SYN-SENT or SYN-RECEIVED, we've just sent a SYN.
@@ -2265,6 +2268,13 @@ impl<'a> Socket<'a> {
 
         let payload_len = payload.len();
         if payload_len == 0 {
+            return None;
+        }
+
+        // The peer's stream ended with its FIN: whatever it sends behind it is not part of
+        // the stream (RFC 9293 3.10.7.4, CLOSE-WAIT and later: "ignore the segment text").
+        if fin_received_before {
+            net_debug!("ignoring data received after the remote FIN");
             return None;
         }
 
